@@ -58,7 +58,7 @@ Print Assumptions C16_spec_refusal_no_side_effect.
 
 (* ... in the code it does not (finding C16-2, reproduced on the real proxy): while Connect(s3) to a
    backend that never answers is in flight, Connect(s1) is reported InProgress and clears the slot, the
-   following Connect(s2) is admitted and switches the player; the property predicate is false on the
+   following Connect(s2) is let in and switches the player; the property predicate is false on the
    code's history and true on the specification's. *)
 Theorem C16_refusal_no_side_effect_refuted :
   map o_res (run false ex_env 4 ex_ops) = [[RNone]; [RInProgress; RSuccess; RErr]] /\
@@ -117,16 +117,16 @@ Proof. exact impl_two_live_refuted. Qed.
 Print Assumptions C16_impl_one_live_backend_refuted.
 
 (* ... and a request refused as InProgress clears the slot of the running one, so a third request is
-   admitted next to it. *)
-Theorem C16_impl_refusal_admits_next_refuted :
+   let in next to it. *)
+Theorem C16_impl_refusal_starts_next_refuted :
   proj (Conc.run [impl_request 0 1; impl_request 1 2; impl_request 2 2]
                  [0; 0; 0; 1; 1; 1; 1; 2; 2; 2] start_cst)
   = ([2; 0], Some 0, [0], [2; 1; 0], [(1, RInProgress)]).
-Proof. exact impl_refusal_admits_next_refuted. Qed.
-Print Assumptions C16_impl_refusal_admits_next_refuted.
+Proof. exact impl_refusal_starts_next_refuted. Qed.
+Print Assumptions C16_impl_refusal_starts_next_refuted.
 
 (* Non-vacuity: the start state satisfies the invariant's premises, a concrete schedule of the
-   specification threads admits one request, refuses the other and completes the switch; a concrete
+   specification threads lets one request in, refuses the other and completes the switch; a concrete
    1.20.2+ history (kick in configuration after the old server was left, fallback walk over a server that
    kicks in login, a switch, a kick from the current server, a refusal) satisfies the predicate. *)
 Example C16_spec_schedule_example :
